@@ -292,13 +292,13 @@ int disasm_arc(
   }
 
   // Single operand instructions.
-  if (opcode_type == 0x02 && a == 1)
+  if (opcode_type == 0x02 && (opcode16 & 0x3f) == 0x2f)
   {
     int o = opcode & 0x3f;
 
     for (n = 0; table_arc_single[n].instr != NULL; n++)
     {
-      if (is_extended != table_arc_alu[n].is_extended) { continue; }
+      if (is_extended != table_arc_single[n].is_extended) { continue; }
 
       if (table_arc_single[n].opcode == o)
       {
@@ -329,18 +329,9 @@ int disasm_arc(
             }
             break;
           case 1:
-            if (b == LIMM)
-            {
-              // xxx.f b,limm
-              immediate = READ_RAM32(address + 4);
-              snprintf(temp, sizeof(temp), "%s, 0x%04x", reg_b, immediate);
-              size += 4;
-            }
-              else
-            {
-              // xxx.f b,u6
-              snprintf(temp, sizeof(temp), "%s, %d", reg_b, c);
-            }
+            // xxx.f b,u6
+            // xxx.f 0,u6
+            snprintf(temp, sizeof(temp), "%s, %d", b == LIMM ? "0" : reg_b, c);
             break;
           case 2:
           case 3:
